@@ -27,6 +27,7 @@ type Case struct {
 	PShape   string         `json:"pshape"`           // none | one | each
 	RFmts    []int16        `json:"rfmts,omitempty"`
 	Limit    int            `json:"limit"`
+	TLS      bool           `json:"tls,omitempty"`
 }
 
 const q = "select $1"
@@ -74,6 +75,7 @@ func (c Case) history() (play.History, []string) {
 	h := play.History{}
 	h.Cfg.Table.Q = map[string]script.Outcome{q: {Stmts: []script.Stmt{st}}}
 	h.Cfg.SetLimit, h.Cfg.Limit = true, c.Limit
+	h.TLS = c.TLS
 	h.Msgs = []script.CMsg{
 		{K: "P", Name: "s", Query: q},
 		{K: "D", Kind: 'S', Name: "s"},
@@ -138,6 +140,7 @@ func Run(c Case) core.Result {
 	lab(nBin > 0, "binary-parameter")
 	lab(c.PShape == "one" && len(c.Params) >= 2, "one-code-for-all(n>=2)")
 	lab(len(c.Params) == 0, "no-parameters")
+	lab(c.TLS, "inside-tls")
 	lab(len(c.Params) > 100, ">100-parameters")
 	lab(len(c.Others) > 0, "several-portals-bound-before-execute")
 	res.Labels = append(res.Labels, "pshape="+c.PShape)
